@@ -35,7 +35,7 @@ CHECK = {
         {
             "name": "c05-tls", "pkg": CC, "rewrite": [CC], "harness": H,
             "test": "^TestVerifC05TLS$", "gomaxprocs": 1,
-            "shards": {"quick": 6, "thorough": 9},
+            "shards": {"quick": 16, "thorough": 16},
             "budget_s": {"quick": 80, "thorough": 300},
         },
         {
